@@ -6,6 +6,8 @@ CONSTANTS
   Input <- InPlusPrefix
   PrefixMode = TRUE
   AdmitByCore = TRUE
+  CatchUp = "always"
+  AnyOrder = FALSE
   MaxSize = 40
 INVARIANT Bounded
 PROPERTY Terminates
